@@ -1,13 +1,13 @@
 package main
 
 import (
-	"strings"
 	"bytes"
 	"context"
 	"encoding/json"
 	"fmt"
 	"math/big"
 	"strconv"
+	"strings"
 
 	"github.com/iden3/go-schema-processor/v2/merklize"
 )
